@@ -128,6 +128,7 @@ def _task(args: tuple) -> dict:
         "probes": res.get("probes", {}),
         "stats": res.get("stats", {}),
         "states": res.get("states", []),
+        "nontrivial": res.get("nontrivial", []),
         "wall": res["wall"],
         "harness_error": res.get("harness_error"),
     }
@@ -532,7 +533,9 @@ def write_evidence(pid: str, prop: Any, tier: str, verif_seed: int, results: lis
             stats[k] = stats.get(k, 0) + v
         sts = r.get("states") or []
         states.update(sts)
-        if any((r.get("probes") or {}).values()) and sts:
+        if r.get("nontrivial"):
+            nontrivial_states.update(r["nontrivial"])
+        elif any((r.get("probes") or {}).values()) and sts:
             nontrivial_states.add(sts[-1])
     samples = []
     for r in results:
